@@ -5,3 +5,8 @@ pub(crate) mod router_handler;
 pub(crate) mod status_reporter;
 
 pub mod unit;
+
+#[cfg(feature = "verif-hooks")]
+pub mod verif {
+    pub use super::router_handler::verif_process_update;
+}
